@@ -51,6 +51,14 @@ def run(tier):
         pairs.append((rnd.choice(sections), rnd.choice(sections)))
     triples = [(rnd.choice(sections), rnd.choice(sections), rnd.choice(sections))
                for _ in range(200 if tier == "quick" else 5000)]
+    # a short middle section (no hunks: a submodule log line, an empty / mode-only / binary / renamed file) between
+    # every class and two kinds of follower: what the first section still owes must not resurface after the second
+    short = [c for c in classes if min(len(x) for x in by[c]) <= 4]
+    followers = [c for c in classes if c[0] in ("mod", "modeonly")][:3]
+    for a in classes:
+        for m_ in short:
+            for b in followers:
+                triples.append((rnd.choice(by[a]), min(by[m_], key=len), rnd.choice(by[b])))
     log(f"[{PID}] {len(classes)} section classes, {len(pairs)} pairs, {len(triples)} triples")
 
     jobs = []
